@@ -3,6 +3,7 @@
 # Applies a patch to a scratch worktree of /repo (outside /repo and /verif), runs the quick checks against it
 # (PJRPC_REPO points the harness at the copy) and removes the worktree.  Prints one line per check.
 set -u
+ROOT="$(cd "$(dirname "$0")/.." && pwd)"
 PATCH="$(realpath "$1")"; shift
 W=$(mktemp -d /tmp/pjrpc-mut.XXXXXX)
 rmdir "$W"
@@ -10,7 +11,7 @@ git -C /repo worktree add --detach -q "$W" HEAD || exit 2
 trap 'git -C /repo worktree remove --force "$W" >/dev/null 2>&1; rm -rf "$W"' EXIT
 if ! git -C "$W" apply "$PATCH"; then echo "PATCH DOES NOT APPLY: $PATCH"; exit 2; fi
 for id in "$@"; do
-  out=$(VERIF_EVIDENCE_DIR="$W/.verif-evidence" VERIF_REPLAY_DIR="$W/.verif-replays" PJRPC_REPO="$W" VERIF_BUDGET_S="${VERIF_BUDGET_S:-240}" /verif/check "$id" --tier quick 2>&1)
+  out=$(VERIF_EVIDENCE_DIR="$W/.verif-evidence" VERIF_REPLAY_DIR="$W/.verif-replays" PJRPC_REPO="$W" VERIF_BUDGET_S="${VERIF_BUDGET_S:-240}" "$ROOT/check" "$id" --tier quick 2>&1)
   rc=$?
   echo "$(basename "$PATCH") $id exit=$rc $(echo "$out" | grep -c '^VIOLATION') violation(s): $(echo "$out" | grep -m2 '  bucket' | cut -c1-220)"
   [ "$rc" = 2 ] && echo "$out" | tail -5
